@@ -13,6 +13,7 @@ package drive
 // Columns only the oracles read: gen expect_ok decl_ok sem_ok v_*; x_* are never compared.
 
 import (
+	"google.golang.org/protobuf/proto"
 	"bytes"
 	"context"
 	"encoding/json"
@@ -361,6 +362,9 @@ func (e *oplEnv) parseInner(input string) (res oplParsed) {
 	}
 	grpcResp, gerr := e.grpc.Check(e.ctx, &opl.CheckRequest{Content: []byte(input)})
 	if gerr != nil || len(grpcResp.ParseErrors) != len(errs) {
+		agree = 0
+	} else if _, merr := proto.Marshal(grpcResp); merr != nil {
+		// the gRPC server could not send this answer (e.g. a message that is not valid UTF-8)
 		agree = 0
 	}
 	if agree == 1 {
